@@ -51,15 +51,37 @@ def _reach(proj, world, prestate):
     others = [(o, a[1]) for o, a in world.sources.items() if o != s and o not in world.absent]
     if prestate == "first":
         return [(s, alpha[1])] + others
-    if prestate == "incr":
+    if prestate in ("incr", "incr2", "rmtarget", "override-rm"):
         obs = proj.op(["ifchange", ["top"]])
         if obs["rc"] != 0:
-            raise MachineryError(f"pre-state build failed in world {world.name}: {obs['err'][-300:]}")
+            raise SubjectWrong({"kind": "pre-state-build-fails", "world": world.name, "prestate": prestate},
+                               {"rc": obs["rc"], "err": obs["err"][-600:]})
         bad = oracles.check_content(proj, obs)
         if bad:
-            raise MachineryError(f"pre-state build wrong in world {world.name}: {bad}")
-        proj.op(["edit", s, alpha[1]])
-        return [(s, alpha[2] if len(alpha) > 2 else alpha[0])] + others
+            raise SubjectWrong({"kind": "pre-state-build-wrong-content", "world": world.name, "prestate": prestate},
+                               {"wrong": [b[0] for b in bad]})
+        inner = world.targets[1]
+        if prestate == "incr":
+            proj.op(["edit", s, alpha[1]])
+            return [(s, alpha[2] if len(alpha) > 2 else alpha[0])] + others
+        if prestate == "incr2":
+            # the last value of the alphabet: in the worlds with a checksummed node this is the edit that changes
+            # the checksum (0 -> 1 leaves it unchanged)
+            proj.op(["edit", s, alpha[-1]])
+            return [(s, alpha[0])] + others
+        if prestate == "rmtarget":
+            proj.op(["rm", inner])
+            return [(s, alpha[1])] + others
+        if prestate == "override-rm":
+            # the user edits a generated file, redo notices (and leaves it alone), the user removes it again:
+            # from then on it is an ordinary target that has to be rebuilt
+            proj.op(["uwrite", inner, "by hand\n"])
+            obs = proj.op(["ifchange", ["top"]])
+            if obs["rc"] != 0:
+                raise SubjectWrong({"kind": "pre-state-build-fails", "world": world.name, "prestate": prestate},
+                                   {"rc": obs["rc"], "err": obs["err"][-600:]})
+            proj.op(["rm", inner])
+            return [(s, alpha[1])] + others
     raise MachineryError("unknown prestate " + prestate)
 
 
@@ -81,7 +103,23 @@ def _check_contents(proj):
     return bad
 
 
+class SubjectWrong(Exception):
+    """the build that is to be interrupted does not even work without a kill: a finding about the subject (reported as a
+    violation of the degenerate crash point "no kill at all"), not a machinery error"""
+
+    def __init__(self, sig, detail):
+        Exception.__init__(self, json.dumps(sig))
+        self.sig, self.detail = sig, detail
+
+
 def count_run(world_name, prestate):
+    try:
+        return count_run_(world_name, prestate)
+    except SubjectWrong as e:
+        return {"subject_wrong": (e.sig, e.detail)}
+
+
+def count_run_(world_name, prestate):
     """two counting runs; returns (crash points, per-process call counts, normalised sequences)"""
     world = worlds.curated()[world_name]
     runs = []
@@ -92,10 +130,12 @@ def count_run(world_name, prestate):
             env, log, procs = e3.shim_env(proj.env, root, "count")
             r = e3.run_session(BUILD, proj.p, env, root, "count", timeout=60)
             if r["rc"] != 0 or r["watchdog"]:
-                raise MachineryError(f"count run failed (world {world_name}, {prestate}): rc={r['rc']} {r['err'][-300:]}")
+                raise SubjectWrong({"kind": "uninterrupted-build-fails", "world": world_name, "prestate": prestate},
+                                   {"rc": r["rc"], "watchdog": r["watchdog"], "err": r["err"][-600:]})
             bad = _check_contents(proj)
             if bad:
-                raise MachineryError(f"count run built wrong contents under the shim: {bad}")
+                raise SubjectWrong({"kind": "uninterrupted-build-wrong-content", "world": world_name, "prestate": prestate},
+                                   {"wrong": bad})
             calls = e3.parse_log(log)
             runs.append((calls, str(root), e3.parse_procs(procs)))
         finally:
@@ -109,6 +149,36 @@ def count_run(world_name, prestate):
     return pts, per_proc, {lid: [list(x) for x in s] for lid, s in seqs.items()}
 
 
+def script_points(world_name, prestate):
+    """kill points at script boundaries (between redo's own system calls, while redo only waits for the script):
+    for every script the build of this pre-state executes, its start, the point after each dependency group and the
+    point after its output was written.  Found by a counting run that records which scripts run."""
+    world = worlds.curated()[world_name]
+    proj, root = _mkproj(world, "scnt")
+    try:
+        try:
+            _reach(proj, world, prestate)
+        except SubjectWrong:
+            return []
+        proj.read_trace()
+        obs = proj.op(["ifchange", ["top"]])
+        if obs["rc"] != 0:
+            return []   # reported by the counting run of the same combination
+        ran = [l.split(" ")[1] for l in obs["trace"] if l.startswith("B ")]
+        m = obs["model_before"]
+        pts = []
+        for t in ran:
+            df, spec = m.rule_for(t)
+            n = len(m.script_deps(t, spec))
+            for pos in list(range(n + 1)) + ["e"]:
+                pts.append({"lid": "script:" + t, "k": str(pos), "call": "script-kill", "path_class": None,
+                            "window": "script %s at %s" % ("start" if pos == 0 else "end" if pos == "e" else "middle",
+                                                           "first run" if ran.index(t) == 0 else "nested run")})
+        return pts
+    finally:
+        shutil.rmtree(root, ignore_errors=True)
+
+
 def crash_job(args):
     world_name, prestate, scope, pt, expect_prefix = args
     world = worlds.curated()[world_name]
@@ -119,16 +189,23 @@ def crash_job(args):
           "call": pt["call"], "path_class": pt["path_class"], "window": pt["window"]}
     try:
         edits = _reach(proj, world, prestate)
-        env, log, procs = e3.shim_env(proj.env, root, "crash", kill=(pt["lid"], pt["k"], scope))
-        r = e3.run_session(BUILD, proj.p, env, root, "crash", timeout=60, survivors_timeout=15)
-        calls = e3.parse_log(log)
-        fired = [c for c in calls if c.call == "KILL" and c.lid == pt["lid"] and c.idx == pt["k"]]
-        if len(fired) != 1:
-            raise MachineryError(f"kill {pt['lid']}:{pt['k']}:{scope} did not fire exactly once in world {world_name}/"
-                                 f"{prestate} (fired {len(fired)}x; rc={r['rc']}; stderr {r['err'][-300:]!r})")
-        got_prefix = e3.redo_sequences([c for c in calls if c.lid == pt["lid"]], str(root)).get(pt["lid"], [])
-        if [list(x) for x in got_prefix] != expect_prefix[:pt["k"] - 1]:
-            raise MachineryError(f"crash run diverged from the count run before the kill point {pt['lid']}:{pt['k']}")
+        if pt["call"] == "script-kill":
+            env = dict(proj.env, RV_KILL="%s:%s" % (pt["lid"].split(":", 1)[1], pt["k"]))
+            r = e3.run_session(BUILD, proj.p, env, root, "crash", timeout=60, survivors_timeout=15)
+            if r["rc"] != -9:
+                raise MachineryError(f"script kill {pt['lid']}:{pt['k']} did not fire in world {world_name}/{prestate} "
+                                     f"(rc={r['rc']}; stderr {r['err'][-300:]!r})")
+        else:
+            env, log, procs = e3.shim_env(proj.env, root, "crash", kill=(pt["lid"], pt["k"], scope))
+            r = e3.run_session(BUILD, proj.p, env, root, "crash", timeout=60, survivors_timeout=15)
+            calls = e3.parse_log(log)
+            fired = [c for c in calls if c.call == "KILL" and c.lid == pt["lid"] and c.idx == pt["k"]]
+            if len(fired) != 1:
+                raise MachineryError(f"kill {pt['lid']}:{pt['k']}:{scope} did not fire exactly once in world {world_name}/"
+                                     f"{prestate} (fired {len(fired)}x; rc={r['rc']}; stderr {r['err'][-300:]!r})")
+            got_prefix = e3.redo_sequences([c for c in calls if c.lid == pt["lid"]], str(root)).get(pt["lid"], [])
+            if [list(x) for x in got_prefix] != expect_prefix[:pt["k"] - 1]:
+                raise MachineryError(f"crash run diverged from the count run before the kill point {pt['lid']}:{pt['k']}")
         tr["crash"] = {"rc": r["rc"], "watchdog": r["watchdog"], "had_survivors": r["had_survivors"],
                        "survivors_hung": r["survivors_hung"], "err": r["err"][-600:], "t": r["t_all"]}
         tr["after_crash_files"] = _contents(proj)
@@ -188,10 +265,17 @@ def crash_job(args):
         shutil.rmtree(root, ignore_errors=True)
 
 
+PRESTATES = {"chain": ("first", "incr", "rmtarget", "override-rm"), "csum-mid": ("first", "incr", "incr2", "rmtarget", "override-rm"),
+             "default": ("first", "incr"), "chain-append": ("first", "incr"), "dynamic": ("first", "incr")}
+
+
 def plan(tier):
+    """(world, pre-state, scope) combinations; scope "script" = the script-boundary kill points (whole tree)"""
     if tier == "quick":
-        return [("chain", ps, sc) for ps in ("first", "incr") for sc in ("tree", "proc")], True
-    return [(w, ps, sc) for w in ("chain", "csum-mid", "default") for ps in ("first", "incr") for sc in ("proc", "tree")], False
+        c = [(w, ps, sc) for w in ("chain", "csum-mid", "chain-append") for ps in PRESTATES[w] for sc in ("tree", "script")]
+        c += [("chain", ps, "proc") for ps in ("first", "incr")]
+        return c, True
+    return [(w, ps, sc) for w in PRESTATES for ps in PRESTATES[w] for sc in ("proc", "tree", "script")], False
 
 
 def signature(tr):
@@ -213,10 +297,24 @@ def main(tier):
     try:
         with ProcessPoolExecutor(max_workers=min(16, common.NCPU), initializer=_init, initargs=(str(bindir), str(root))) as pool:
             keys = sorted({(w, ps) for w, ps, _ in combos})
-            for (w, ps), (pts, per_proc, seqs) in zip(keys, pool.map(count_run, [k[0] for k in keys], [k[1] for k in keys])):
-                counts[(w, ps)] = (pts, per_proc, seqs)
+            broken = set()
+            for (w, ps), cr in zip(keys, pool.map(count_run, [k[0] for k in keys], [k[1] for k in keys])):
+                if isinstance(cr, dict):
+                    sig, detail = cr["subject_wrong"]
+                    verdict.report(sig, {"engine": "E3", "world": w, "prestate": ps, "call": "none", **detail})
+                    broken.add((w, ps))
+                    continue
+                counts[(w, ps)] = cr
+            combos = [c for c in combos if (c[0], c[1]) not in broken]
+            skeys = sorted({(w, ps) for w, ps, sc in combos if sc == "script"})
+            spts = {}
+            spts = dict(zip(skeys, pool.map(script_points, [k[0] for k in skeys], [k[1] for k in skeys])))
             for w, ps, sc in combos:
                 pts, per_proc, seqs = counts[(w, ps)]
+                if sc == "script":
+                    for pt in spts[(w, ps)]:
+                        jobs.append((w, ps, "tree", pt, None))
+                    continue
                 for pt in pts:
                     if quick and sc == "proc" and pt["lid"] != TOP_LID:
                         continue   # quick: process-only kills for the top process; thorough: every process
@@ -263,6 +361,7 @@ def main(tier):
         "exhaustive": True,
         "crash_points_per_process": {f"{w}/{ps}": per for (w, ps), (_p, per, _s) in counts.items()},
         "crash_points_per_combo": {f"{w}/{ps}": len(p) for (w, ps), (p, _per, _s) in counts.items()},
+        "script_boundary_kill_points_per_combo": {f"{w}/{ps}": len(p) for (w, ps), p in spts.items()},
         "scopes": sorted({sc for _, _, sc in combos}),
         "quick_restriction": "scope proc only for the top process" if quick else None,
         "windows": dict(windows),
@@ -280,7 +379,9 @@ def main(tier):
         "files, truncate*); stores through the mmap'ed -shm wal-index cannot be intercepted",
         "a kill is SIGKILL of the process (scope proc) or of the invocation's process group (scope tree); no power-loss "
         "model: the page cache survives, so synchronous=off is not exercised",
-        "worlds: chain, csum-mid, default (thorough); chain (quick)",
+        "besides the libc-call boundaries, the whole tree is also killed at script boundaries (script start, after each "
+        "dependency request, after the output was written): instants at which redo itself only waits",
+        "worlds x pre-states: " + "; ".join("%s: %s" % (w, ",".join(sorted({ps for w2, ps, _ in combos if w2 == w}))) for w in sorted({w for w, _, _ in combos})),
     ])
     print(f"[{PID}] tier={tier} crash_points={len(results)} classes={len(classes)} failing={nfail} "
           f"known={sum(verdict.known_hits.values())} new={verdict.count} wall={time.time()-t0:.1f}s")
@@ -295,9 +396,13 @@ def replay(path):
     root.mkdir(parents=True, exist_ok=True)
     _init(str(bindir), str(root))
     try:
-        pts, per, seqs = count_run(doc["world"], doc["prestate"])
-        pt = next(p for p in pts if p["lid"] == doc["lid"] and p["k"] == doc["k"])
-        tr = crash_job((doc["world"], doc["prestate"], doc["scope"], pt, seqs[pt["lid"]]))
+        if doc.get("call") == "script-kill":
+            pt = next(p for p in script_points(doc["world"], doc["prestate"]) if p["lid"] == doc["lid"] and p["k"] == doc["k"])
+            tr = crash_job((doc["world"], doc["prestate"], "tree", pt, None))
+        else:
+            pts, per, seqs = count_run(doc["world"], doc["prestate"])
+            pt = next(p for p in pts if p["lid"] == doc["lid"] and p["k"] == doc["k"])
+            tr = crash_job((doc["world"], doc["prestate"], doc["scope"], pt, seqs[pt["lid"]]))
     finally:
         common.cleanup_scratch()
     print(json.dumps(tr, indent=1, default=str))
